@@ -297,7 +297,36 @@ def buffered_paths(ctx, N, cap):
     return cases
 
 
-def buffered_judge(ctx, cases, label, clauses):
+def buffered_mechanism(ctx, obs, obs_path, label, max_groups=12):
+    """Trace_Buffered: every controlled run must be a behaviour of Buffered.tla (lazily placed sends and
+    pending receives); its invariants are evaluated on every reconstructed state.  DRIFT otherwise."""
+    import collections
+    runs = [r for r in obs if r.get("st") == "ok" and r.get("ctl") == "controlled"]
+    groups = collections.Counter((r["cap"], r["N"]) for r in runs)
+    for (cap, n), cnt in groups.most_common(max_groups):
+        cfg = ("CONSTANTS N = %d Cap = %d DrainOnFail = FALSE\nINIT TInit\nNEXT TNext\n"
+               "INVARIANTS InOrder Complete LookAhead AfterDrop\nCHECK_DEADLOCK FALSE\n" % (n, cap))
+        r = vlib.tlc(ctx, "Trace_Buffered", cfg, env={"OBS": obs_path}, workers=2, name="Trace_Buffered-%s-C%dN%d" % (label, cap, n))
+        if not r["ok"]:
+            import re
+            m = re.search(r"Invariant (\w+) is violated", r["out"])
+            if m:
+                ctx.drift.append("%s Buffered cap=%d N=%d: invariant %s fails on a reconstructed state" % (label, cap, n, m.group(1)))
+                continue
+            raise ToolError("Trace_Buffered run failed:\n" + "\n".join(r["out"].splitlines()[-30:]))
+        acc = sum(1 for p in r["prints"] if p[0] == "STAT")
+        dr = [p for p in r["prints"] if p[0] == "DRIFT"]
+        if acc != cnt:
+            raise ToolError("Trace_Buffered consumed %d of %d runs (cap=%d N=%d)" % (acc, cnt, cap, n))
+        ctx.states += r["states"]
+        ctx.transitions += r["generated"]
+        ctx.extra["mechanism_runs_accepted"] = ctx.extra.get("mechanism_runs_accepted", 0) + acc - len(dr)
+        for p in dr:
+            ctx.drift.append("%s Buffered cap=%d N=%d run %d not a behaviour of Buffered.tla at %s" % (label, cap, n, p[1], p[2]))
+    log("[trace] Trace_Buffered %s: %d groups (cap, N), %d controlled runs" % (label, min(len(groups), max_groups), sum(c for _, c in groups.most_common(max_groups))))
+
+
+def buffered_judge(ctx, cases, label, clauses, mech=True):
     cpath = ctx.path("cases-%s.ndjson" % label)
     vlib.write_ndjson(cpath, cases)
     obs_path = ctx.path("obs-%s.ndjson" % label)
@@ -322,6 +351,8 @@ def buffered_judge(ctx, cases, label, clauses):
                 ctx.extra["timing_retries"] = ctx.extra.get("timing_retries", 0) + 1
                 continue
         vlib.report(ctx, mine, rec, component="pipe", case=rec["case"], kind="schedule")
+    if mech:
+        buffered_mechanism(ctx, obs, obs_path, label)
     if obs and len(ctx.samples) < 6:
         r = obs[len(obs) // 3]
         ctx.samples.append({"source": label, "cap": r["cap"], "N": r["N"], "ctl": r["ctl"],
